@@ -180,23 +180,48 @@ def lake_build(targets):
 # queries, eval, move_generator, count_moves, legal_moves, legal_captures); SpecSanity = theorems about the specification alone
 # (colour symmetry, kings never captured, conservation, published perft counts evaluated in the kernel)
 _IMP = ["Rawr.Proofs.RustImpAgree", "Rawr.Proofs.RustImpAgree_MakeMove", "Rawr.Proofs.RustImpAgree_MoveGen"]
+_SRCH = ["Rawr.Proofs.RustSearchAgree", "Rawr.Proofs.RustSearchAgree_Sort", "Rawr.Proofs.RustSearchAgree_QSearch",
+         "Rawr.Proofs.RustSearchAgree_Valid", "Rawr.Proofs.RustSearchAgree_Negamax", "Rawr.Proofs.RustSearchAgree_Root"]
 EXTRA_MODULES = {
     "C01": ["Rawr.Proofs.RustFnsAgree"] + _IMP + ["Rawr.Props.SpecSanity"],
     "C02": _IMP,
     "C04": _IMP,
     "C06": ["Rawr.Proofs.RustImpAgree"],
     "C07": ["Rawr.Proofs.RustImpAgree"],
-    "C08": ["Rawr.Proofs.RustFnsAgree"] + _IMP + ["Rawr.Props.SpecSanity"],
+    "C08": ["Rawr.Proofs.RustFnsAgree"] + _IMP + ["Rawr.Proofs.RustSearchAgree", "Rawr.Props.SpecSanity"],
     "C10": ["Rawr.Proofs.RustFnsAgree"],
+    "C14": ["Rawr.Proofs.RustFnsAgree"] + _SRCH,
+    "C03": ["Rawr.Proofs.RustFnsAgree"] + _SRCH,
+    "C11": _SRCH,
+    "C12": _SRCH,
+    "C13": _SRCH,
+    "C16": ["Rawr.Proofs.RustSearchAgree"],
     "C17": ["Rawr.Proofs.RustFnsAgree", "Rawr.Proofs.RustImpAgree"],
-    "C19": ["Rawr.Proofs.RustImpAgree"],
+    "C18": ["Rawr.Proofs.RustSearchAgree"],
+    "C19": ["Rawr.Proofs.RustImpAgree", "Rawr.Proofs.RustSearchAgree", "Rawr.Proofs.RustSearchAgree_Sort", "Rawr.Proofs.RustSearchAgree_QSearch"],
 }
 
 
 def run_rust2lean():
     rc, out = sh([sys.executable, os.path.join(VERIF, "tools", "rust2lean.py")])
     rc2, out2 = sh([sys.executable, os.path.join(VERIF, "tools", "rust2lean_imp.py")])
-    return rc == 0 and rc2 == 0, (out.strip() + " | " + out2.strip())
+    rc3, out3 = sh([sys.executable, os.path.join(VERIF, "tools", "rust2lean_search.py")])
+    global TRANSLATORS
+    TRANSLATORS = {"RustFnsAgree": (rc == 0, out.strip()), "RustImpAgree": (rc2 == 0, out2.strip()),
+                   "RustSearchAgree": (rc3 == 0 and rc2 == 0, (out3.strip() if rc3 else out2.strip()))}
+    return rc == 0 and rc2 == 0 and rc3 == 0, (out.strip() + " | " + out2.strip() + " | " + out3.strip())
+
+
+TRANSLATORS = {}
+
+
+def translator_failures(prop):
+    """failures of the translators whose output the property's agreement modules are built from"""
+    out = []
+    for key, (ok, msg) in TRANSLATORS.items():
+        if not ok and any(key in m for m in EXTRA_MODULES.get(prop, [])):
+            out.append(msg)
+    return list(dict.fromkeys(out))
 
 
 def props_modules(prop):
